@@ -5,3 +5,4 @@ INVARIANT C19_Status
 INVARIANT C19_Truth
 INVARIANT C19_Model
 INVARIANT NoPanic
+INVARIANT C19_FlowStatus
